@@ -1065,6 +1065,79 @@ def mixed_history_cases(jobs):
     return out
 
 
+def linkfail_cases(jobs):
+    """C16 / C18: a change on a parent whose propagation fails in one linked child.  P has two linked children in
+    use; the new method is valid for P and for C2 but clashes with one of C1's own methods (a name that is
+    keyword-only there).  job = {id, order: 'c1first' | 'c2first', change: 'register'}.  Afterwards P and C2 are
+    probed: the change shows up in both, or in neither."""
+    import linecache
+
+    from ovld import Ovld
+
+    from .observe import classify, describe
+
+    out = []
+    for job in jobs:
+        try:
+            log = []
+            K2 = type("K2", (), {"__module__": "vfworld"})
+            K3 = type("K3", (K2,), {"__module__": "vfworld"})
+            K4 = type("K4", (), {"__module__": "vfworld"})
+            ns = {"LOG": log, "K2": K2, "K3": K3, "K4": K4, "__name__": "vfworld"}
+            src = ("def m1(x: K2):\n    LOG.append('m1')\n"
+                   "def own1(x: K3, *, w: object = None):\n    LOG.append('own1')\n"
+                   "def own2(x: K3):\n    LOG.append('own2')\n"
+                   "def late(w: K4):\n    LOG.append('late')\n")
+            fname = f"<vf:linkfail{job['id']}>"
+            linecache.cache[fname] = (len(src), None, src.splitlines(True), fname)
+            exec(compile(src, fname, "exec"), ns, ns)
+            P = Ovld()
+            P.register(ns["m1"])
+            kids = {}
+            for name in (("C1", "C2") if job["order"] == "c1first" else ("C2", "C1")):
+                c = P.copy(linkback=True)
+                c.register(ns["own1"] if name == "C1" else ns["own2"])
+                kids[name] = c
+            for f in (P, kids["C1"], kids["C2"]):
+                f(K3())
+            if job.get("kind") == "parent_invalid":
+                # the new method cannot be built at all (misuse of call_next): the parent's own rebuild fails
+                from ovld import call_next
+
+                ns["call_next"] = call_next
+                src2 = "def late(x: K4):\n    nxt = call_next\n    return nxt(x)\n"
+                fname2 = fname + "b"
+                linecache.cache[fname2] = (len(src2), None, src2.splitlines(True), fname2)
+                exec(compile(src2, fname2, "exec"), ns, ns)
+            try:
+                P.register(ns["late"])
+                outcome = "ok"
+            except BaseException as e:  # noqa
+                outcome = "error:" + describe(e)
+                e.__traceback__ = None
+
+            def probe(f, cls):
+                del log[:]
+                try:
+                    f(cls())
+                    kind = "run"
+                except BaseException as e:  # noqa
+                    kind = classify(e)
+                    e.__traceback__ = None
+                return {"kind": kind, "entered": list(log)}
+
+            rec = {"id": job["id"], "job": job, "register": outcome,
+                   "P": {"K4": probe(P, K4), "K3": probe(P, K3)},
+                   "C2": {"K4": probe(kids["C2"], K4), "K3": probe(kids["C2"], K3)},
+                   "C1": {"K4": probe(kids["C1"], K4)}}
+            for k in [k for k in linecache.cache if k.startswith("<ovld:") or k.startswith("<vf:")]:
+                del linecache.cache[k]
+            out.append(rec)
+        except Exception:
+            out.append({"id": job["id"], "skip": "harness: " + traceback.format_exc()[-700:]})
+    return out
+
+
 def build_trace_cases(jobs):
     """Executions of the lazy build recorded as event traces for Trace_Build.tla.
     job = {id, world, threads:{A: call, B: call}, granularity, switches ('sweep1' | 'sweepab' | [[..]]),
